@@ -35,7 +35,7 @@ NOT_CARRIED = ["the textual substitution on the line (str.replace chains in pars
                "induction over the history is the meta-step"]
 
 
-def bounded(check):
+def _bounded0(check):
     """bounded stand-in / native witness search on the real Cleaner for the parts outside the contracts (textual substitution on the line)"""
     import json, os, subprocess
     n = 2 if check.tier == "quick" else 3
@@ -58,3 +58,8 @@ def bounded(check):
                   open(path, "w"), indent=1)
         out["replay"] = path
     return [out]
+
+
+def bounded(check):
+    from props._xcheck import xcheck
+    return list(_bounded0(check)) + [xcheck(check, ["obfuscators"], "obfuscators")]
